@@ -16,6 +16,7 @@ package c16
 
 import (
 	"fmt"
+	"math"
 	"math/big"
 
 	"github.com/tuneinsight/lattigo/v6/core/rlwe"
@@ -218,7 +219,22 @@ func xparams(r *eng.Rand, cf *pcfg, i int, minQ int, qbits []int) bool {
 		nq, np = 7+r.N(4), 3+r.N(2)
 		cf.LogN = min(cf.LogN, 6)
 	}
-	return chain(r, cf, nq, np, qbits, []int{45, 55, 60, 61})
+	if !chain(r, cf, nq, np, qbits, []int{45, 55, 60, 61}) {
+		return false
+	}
+	// The smudging noise of a share is observed modulo the ciphertext modulus: a sample that can reach Q/2 wraps
+	// around and its measured deviation says nothing about the requested one (false alarm found at seed 7:
+	// sigma = 2^36 under a single 36-bit prime). Keep the truncation bound below a quarter of the smallest prime.
+	bx := cf.FloodBoundX
+	if bx == 0 {
+		bx = 6
+	}
+	for k := len(xsigmas) - 1; k >= 0 && bx*cf.Sigma >= math.Ldexp(1, minInt(cf.QBits)-2); k-- {
+		if xsigmas[k] < cf.Sigma {
+			cf.Sigma = xsigmas[k]
+		}
+	}
+	return true
 }
 
 func xcases(tier string, seed int64, logNs []int, add func(kind string, i int, cc caseCfg, run func(c *eng.Ctx, cc caseCfg))) {
